@@ -245,6 +245,9 @@ static bool opAssign(PM&, const PM&) { return false; }
 static int opEq(const HM& a, const HM& b) { bool e = a == b, n = a != b; return e == !n ? (int)e : 2; }
 static int opEq(const HS& a, const HS& b) { bool e = a == b, n = a != b; return e == !n ? (int)e : 2; }
 static int opEq(const PM&, const PM&) { return -1; }
+static int opNe(const HM& a, const HM& b) { return (int)(a != b); }
+static int opNe(const HS& a, const HS& b) { return (int)(a != b); }
+static int opNe(const PM&, const PM&) { return -1; }
 static bool opAppendAll(HM&, const HM&) { return false; }
 static bool opAppendAll(HS& a, const HS& b) { a.append(b); return true; }
 static bool opAppendAll(PM&, const PM&) { return false; }
@@ -435,6 +438,44 @@ template<class C> static void observeTable(C& c)
   if(!chainsOk(c)) printf(" CHAIN-MISMATCH");
 }
 
+// text result of a query line (`res …`); empty = the numeric / unit result is printed
+static char g_resText[65536];
+
+// iteration with the mutating or the const overloads of ++ / --, forwards from begin() or backwards from end()
+template<class C> static void iterText(const C& c, bool backward, bool constOps)
+{
+  char* p = g_resText + sprintf(g_resText, "res ");
+  long n = 0;
+  if(!backward)
+    for(typename C::Iterator i = c.begin(), end = c.end(); i != end && n < 4096; ++n)
+    {
+      p += sprintf(p, "%s%d:%d", n ? "," : "", keyOf(i), valOf(i));
+      if(constOps) { const typename C::Iterator ci = i; i = ++ci; }
+      else ++i;
+    }
+  else
+    for(typename C::Iterator i = c.end(), begin = c.begin(); i != begin && n < 4096; ++n)
+    {
+      if(constOps) { const typename C::Iterator ci = i; i = --ci; }
+      else --i;
+      p += sprintf(p, "%s%d:%d", n ? "," : "", keyOf(i), valOf(i));
+    }
+  if(n == 0) sprintf(p, "-");
+}
+
+static const void* arrowOf(const HM::Iterator& i) { return i.operator->(); }
+static const void* arrowOf(const HS::Iterator& i) { return i.operator->(); }
+static const void* arrowOf(const PM::Iterator& i) { return i.operator->(); }
+static const void* starOf(const HM::Iterator& i) { return &*i; }
+static const void* starOf(const HS::Iterator& i) { return &*i; }
+static const void* starOf(const PM::Iterator& i) { return &*i; }
+static int opFrontC(const HM& c) { return c.front(); }
+static int opFrontC(const HS& c) { return keyNum(c.front()); }
+static int opFrontC(const PM& c) { return c.front(); }
+static int opBackC(const HM& c) { return c.back(); }
+static int opBackC(const HS& c) { return keyNum(c.back()); }
+static int opBackC(const PM& c) { return c.back(); }
+
 template<class C> struct Runner
 {
   alignas(C) unsigned char mem[2][sizeof(C)];
@@ -457,7 +498,8 @@ template<class C> struct Runner
 
   void observe(long res)
   {
-    if(res < 0) printf("unit");
+    if(g_resText[0]) printf("%s", g_resText);
+    else if(res < 0) printf("unit");
     else printf("num %ld", res);
     printf(" || ");
     observeTable(*t[0]);
@@ -526,6 +568,31 @@ template<class C> struct Runner
     if(hxIs(l, "appendAll", 1)) return opAppendAll(c, o);
     if(hxIs(l, "removeAll", 1)) return opRemoveAll(c, o);
     if(hxIs(l, "setval", 3)) return opSetVal(c, (int)hxNum(l, 2), (int)hxNum(l, 3));
+    // queries as op lines; the ...C lines go through the const overloads
+    if(hxIs(l, "front", 1)) { if(c.isEmpty()) return false; res = opFront(c); return true; }
+    if(hxIs(l, "frontC", 1)) { if(c.isEmpty()) return false; res = opFrontC(c); return true; }
+    if(hxIs(l, "back", 1)) { if(c.isEmpty()) return false; res = opBack(c); return true; }
+    if(hxIs(l, "backC", 1)) { if(c.isEmpty()) return false; res = opBackC(c); return true; }
+    if(hxIs(l, "iterate", 1)) { iterText(c, false, false); return true; }
+    if(hxIs(l, "iterateC", 1)) { iterText(c, false, true); return true; }
+    if(hxIs(l, "iterBack", 1)) { iterText(c, true, false); return true; }
+    if(hxIs(l, "iterBackC", 1)) { iterText(c, true, true); return true; }
+    if(hxIs(l, "entryAt", 2))
+    {
+      usize pos = hxNum(l, 2);
+      if(pos >= c.size()) return false;
+      typename C::Iterator i = iterAt(c, pos);
+      sprintf(g_resText, "res %d:%d%s", keyOf(i), valOf(i), arrowOf(i) == starOf(i) ? "" : " ARROW-MISMATCH");
+      return true;
+    }
+    if(hxIs(l, "notEqual", 2))
+    {
+      if(strcmp(l.tok[2], "0") != 0 && strcmp(l.tok[2], "1") != 0) return false;
+      int e = opNe(c, *t[(int)hxNum(l, 2)]);
+      if(e < 0) return false;
+      sprintf(g_resText, "res %d", e);
+      return true;
+    }
     // the object itself as the `other` argument
     if(hxIs(l, "assignSelf", 1)) return opAssign(c, *t[v]);
     if(hxIs(l, "swapSelf", 1)) { c.swap(*t[v]); return true; }
@@ -571,6 +638,7 @@ int main()
     long res = -1;
     bool ok;
     g_opBytes = 0;
+    g_resText[0] = 0;
     {
       // an op line that spins (a chain or list closed into a cycle) is ended after 5 s of its own CPU time (not wall time:
       // the machine may be loaded): reported as a crash on that line, and shrinking does not wait for the run's time-out
